@@ -198,6 +198,11 @@ impl TimeTrigger {
         let current = Local::now();
         #[cfg(all(feature = "verif_hooks", not(test)))]
         let current = crate::verif_hooks::now_override().unwrap_or(current);
+        TimeTrigger::new_at(config, current)
+    }
+
+    /// A trigger whose first roll is scheduled from the given instant.
+    fn new_at(config: TimeTriggerConfig, current: DateTime<Local>) -> TimeTrigger {
         let next_time = TimeTrigger::get_next_time(current, config.interval, config.modulate);
         let next_roll_time = if config.max_random_delay > 0 {
             let random_delay = rand::thread_rng().gen_range(0..config.max_random_delay);
@@ -370,7 +375,8 @@ impl Trigger for TimeTrigger {
             .unwrap_or_else(|e| e.into_inner());
         let is_trigger = current >= *next_roll_time;
         if is_trigger {
-            let tmp = TimeTrigger::new(self.config);
+            // schedule from the reading that fired, not from a second look at the clock
+            let tmp = TimeTrigger::new_at(self.config, current);
             let time_new = tmp.next_roll_time.read().unwrap();
             *next_roll_time = *time_new;
         }
